@@ -283,9 +283,10 @@ func runC17(c *engine.Ctx) {
 				cc, ok := in.(*ssa.Call)
 				return ok && cc.Call.IsInvoke() && cc.Call.Method.Name() == "Shutdown"
 			}
-			okD, _ := engine.MustReachFromBlock(start, isDel, nil)
+			okD, _ := c.P.MustReachInter(start, isDel, nil)
 			// Shutdown is under a type assertion (PeerProcess); require reachability on the assertion-success path
-			okS, _ := engine.CanReachFromBlock(start, isShut, nil)
+			// (in this function, or after it returns in every caller)
+			okS := c.P.CanReachInter(start, isShut)
 			c.Decide(r3, engine.FuncName(f)+"|last-disconnect", f.Pos(), okD && okS,
 				"when the last reference is dropped the entry is deleted and the process shut down",
 				fmt.Sprintf("dropping the last reference does not both delete the entry (%v) and shut the process down (%v): a queue outlives its peer's last disconnect", okD, okS))
